@@ -715,8 +715,8 @@ def gen_cases(ctx, im: Impl):
     for t in spec:
         yield "special", g.message(t, flags=next(flag_cycle))
     # 2. message types: all in thorough, a seeded subset in quick
-    types = list(im.tmsgs) if ctx.thorough else rng.sample(im.tmsgs, 70)
-    reps = ctx.pick(2, 12)
+    types = list(im.tmsgs) if ctx.thorough else rng.sample(im.tmsgs, 120)
+    reps = ctx.pick(3, 12)
     for t in types:
         for _ in range(reps):
             yield "typed", g.message(t, flags=next(flag_cycle))
@@ -736,10 +736,10 @@ def gen_cases(ctx, im: Impl):
                 m.add_block(im.Block(b.name, fill_missing=True))
         yield "alldefault", m
     # 5. non-conforming messages: both sides must refuse alike (or encode alike)
-    for _ in range(ctx.pick(400, 6000)):
+    for _ in range(ctx.pick(700, 6000)):
         yield "bad", g.message(rng.choice(im.tmsgs), mode=rng.choice(BAD_MODES))
     # 6. random bulk
-    for _ in range(ctx.pick(900, 40000)):
+    for _ in range(ctx.pick(2200, 40000)):
         yield "random", g.message(rng.choice(im.tmsgs))
 
 
@@ -852,7 +852,7 @@ def correspond(ctx):
     im = impl()
     res = CorrResult(suite="template codec: impl vs extracted model on the generated dictionary",
                      rule="Python Messages built from the live template (types with Fixed/Multiple/IP/Quaternion/64-bit variables and "
-                          "block-less types always; a seeded subset of the other types in quick, all 481 in thorough), values at "
+                          "block-less types always; a seeded subset of 120 other types in quick, all 481 in thorough), values at "
                           "type boundaries (min/max ints, -0.0, denormals, inf, empty/maximal Variable, NULs, invalid UTF-8), flags "
                           "cycling through all 16 combinations of ZEROCODED/RELIABLE/RESENT/ACK, acks 0/1/2/255, extra 0/1/4/255 bytes, "
                           "Variable-block counts 0/1/2/255, shuffled dict orders, unset variables under fill_missing, plus messages with "
@@ -903,29 +903,120 @@ def _check_message(im: Impl, m):
     return None
 
 
+def _clone(im: Impl, m):
+    return line_to_message(im, to_line(im, m))
+
+
+def _simple_value(tv):
+    ty = tv.ty
+    if ty in UNSIGNED or ty in SIGNED:
+        return 0
+    if ty == "TVarlen":
+        return b""
+    if ty == "TFixed":
+        return b"\x00" * tv.size
+    if ty in F32S:
+        return 0.0 if ty == "TF32" else (0.0,) * F32S[ty]
+    if ty in F64S:
+        return 0.0 if ty == "TF64" else (0.0,) * F64S[ty]
+    if ty == "TUUID":
+        return "00000000-0000-0000-0000-000000000000"
+    if ty == "TIPAddr":
+        return "0.0.0.0"
+    return None
+
+
 def shrink(im: Impl, m, v):
-    """drop blocks instances / variables (under fill) while the failure persists"""
-    line = to_line(im, m)
-    toks = line.split(" ")
-    best = (m, v)
-    # try clearing flags/acks/extra first
-    for attempt in ("noextra", "noacks", "flags0"):
+    """greedy structural shrinking while a failure of the same class persists: clear extra / acks / flags,
+    drop trailing blocks, drop instances of Variable blocks, replace values by the simplest one of their type"""
+    cls = v.get("class")
+
+    def still(m2):
         try:
-            m2 = line_to_message(im, to_line(im, best[0]))
-            if attempt == "noextra":
-                m2.raw_extra, m2.offset = b"", 0
-            elif attempt == "noacks":
-                m2.acks = ()
-                m2.send_flags &= ~0x10
-            else:
-                m2.send_flags = 0
-                m2.acks = ()
             w = _check_message(im, m2)
-            if w and w.get("class") == v.get("class"):
-                best = (m2, w)
         except Exception:
-            pass
-    return best[1]
+            return None
+        return w if (w and w.get("class") == cls) else None
+
+    try:
+        cur = _clone(im, m)
+    except Exception:
+        return v
+    w0 = still(cur)
+    if not w0:
+        return v
+    best = w0
+    t = im.by_name.get(cur.name)
+
+    def attempt(mutator):
+        nonlocal cur, best
+        try:
+            m2 = _clone(im, cur)
+            if mutator(m2) is False:
+                return False
+            w = still(m2)
+        except Exception:
+            return False
+        if w:
+            cur, best = m2, w
+            return True
+        return False
+
+    def noextra(x):
+        if not x.raw_extra:
+            return False
+        x.raw_extra, x.offset = b"", 0
+
+    def noacks(x):
+        if not (x.acks or int(x.send_flags) & 0x10):
+            return False
+        x.acks = ()
+        x.send_flags = int(x.send_flags) & ~0x10
+
+    def flags0(x):
+        if not int(x.send_flags) & ~0x10:
+            return False
+        x.send_flags = int(x.send_flags) & 0x10
+
+    for f in (noextra, noacks, flags0):
+        attempt(f)
+    if t is not None:
+        # trailing blocks
+        for b in reversed(t.blocks[1:]):
+            def drop(x, name=b.name):
+                if name not in x._blocks:
+                    return False
+                del x._blocks[name]
+            attempt(drop)
+        # instances of Variable blocks
+        for b in t.blocks:
+            if b.kind != "V":
+                continue
+            progress = True
+            while progress:
+                progress = False
+                n = len(cur._blocks.get(b.name, ()))
+                for keep in (0, 1, n // 2, n - 1):
+                    if 0 <= keep < n:
+                        def cut(x, name=b.name, keep=keep):
+                            del x._blocks[name][keep:]
+                        if attempt(cut):
+                            progress = True
+                            break
+        # values
+        for b in t.blocks:
+            for i in range(len(cur._blocks.get(b.name, ()))):
+                for tv in b.vars:
+                    def simp(x, name=b.name, i=i, tv=tv):
+                        blk = x._blocks[name][i]
+                        if blk.vars.get(tv.name) is None:
+                            return False
+                        sv = _simple_value(tv)
+                        if sv is None or tok(tv, blk.vars[tv.name]) == tok(tv, sv):
+                            return False
+                        blk.vars[tv.name] = sv
+                    attempt(simp)
+    return best
 
 
 def search(ctx, hints):
